@@ -24,13 +24,16 @@ def generate(ctx):
     max_rows = 7 if ctx.tier == "quick" else 12
     cases = []
     ops = [ao.op_getitem_int, ao.op_getitem_slice, ao.op_getitem_slice, ao.op_getitem_mask, ao.op_getitem_idx, ao.op_take,
-           ao.op_take, ao.op_concat, ao.op_simple, ao.op_setitem, ao.op_setitem, ao.op_setitem,
+           ao.op_take, ao.op_concat, ao.op_simple, ao.op_iterate, ao.op_setitem, ao.op_setitem, ao.op_setitem,
            lambda r, i: ao.op_setitem(r, i, malformed=True), lambda r, i: ao.op_setitem(r, i, via_series=True),
            lambda r, i: ao.op_setitem(r, i, force_multi=True)]
     for i in range(n):
         corner = {0: "zero_rows", 1: "all_missing", 2: "all_empty"}.get(i % 50)
-        inp = ao.mk_input(rng, max_rows=max_rows, recipes=LAYOUTS, corner=corner,
-                          recipe=LAYOUTS[i % len(LAYOUTS)] if i < 2 * len(LAYOUTS) else None)
+        recipe = LAYOUTS[i % len(LAYOUTS)] if i < 2 * len(LAYOUTS) else None
+        if ops[i % len(ops)] is ao.op_iterate and i % 3:
+            # iteration reads every field through its own offsets: the layouts where the fields do not share them
+            recipe, corner = ("mixed_bases" if i % 3 == 1 else "history"), None
+        inp = ao.mk_input(rng, max_rows=max_rows, recipes=LAYOUTS, corner=corner, recipe=recipe)
         if inp.get("history_failed"):
             cases.append(ao.history_failure_case(inp))
             continue
